@@ -234,6 +234,11 @@ Qed.
 Theorem get_out_object_guard e c : get_out_object_on_error e c = Escaped e c.
 Proof. reflexivity. Qed.
 
+(** ---- binary data: every encoding, text of every length, byte strings ---- *)
+Theorem binary_total e s :
+  safe (read_bytes e s) /\ safe (from_urlsafe_bytes s) /\ safe (from_hex s).
+Proof. auto using read_bytes_safe, from_urlsafe_bytes_safe, from_hex_safe. Qed.
+
 (** ---- the charset of the Content-Type header ---- *)
 Definition CODEC_LOOKUP_RAISES := [ELookupError; ETypeError; EValueError].
 Theorem reconstruct_safe cl :
